@@ -29,6 +29,13 @@ func cmdProducer(args []tok) string {
 		return "BADARGS"
 	}
 	proto, retry, gap := args[0].s, int(args[1].i), time.Duration(args[2].i)*time.Millisecond
+	// tcp@<ms>: the producer has been up (and idle) for that long before the first message is handed over
+	var uptime time.Duration
+	if i := strings.Index(proto, "@"); i > 0 {
+		var ms int
+		fmt.Sscanf(proto[i+1:], "%d", &ms)
+		proto, uptime = proto[:i], time.Duration(ms)*time.Millisecond
+	}
 	rest := args[3:]
 	_, rest = splitAt(rest, "F")
 	fs, ms := splitAt(rest, "M")
@@ -198,6 +205,7 @@ func cmdProducer(args []tok) string {
 		}()
 		done <- p.Run()
 	}()
+	time.Sleep(uptime)
 	for _, m := range msgs {
 		p.Chan <- append([]byte{}, m...)
 		if gap > 0 {
